@@ -52,5 +52,6 @@ Example c15_matrix :
   /\ matrix SrvTrusted IdNone = false /\ matrix SrvTrusted IdServerCertAsClient = false
   /\ matrix SrvOtherCa IdTrusted = false /\ matrix SrvOtherCa IdOtherCa = false /\ matrix SrvOtherCa IdSelfSigned = false
   /\ matrix SrvOtherCa IdNone = false
-  /\ matrix_trust SrvTrusted IdTrusted true = false /\ matrix_trust SrvOtherCa IdTrusted true = true.
+  /\ matrix_trust SrvTrusted IdTrusted true = false /\ matrix_trust SrvOtherCa IdTrusted true = true
+  /\ matrix_bundle IdOtherCa = false /\ matrix_bundle IdTrusted = true.
 Proof. vm_compute. repeat split; reflexivity. Qed.
